@@ -51,6 +51,10 @@ class Svc(rpyc.Service):
     def exposed_fire(self, x, cb): rpyc.async_(cb)(x); return x * 2
 
 
+class Hang(BaseException):
+    """raised by the harness when a wait makes no progress for a long stretch of virtual time (a request that would hang)"""
+
+
 class Fault:
     def __init__(self, side=None, index=None, partial=None):
         self.side, self.index, self.partial = side, index, partial
@@ -207,10 +211,18 @@ def run_case(workload, closes, plan):
             except EOFError:
                 return False
 
+        idle = {"n": 0}
+
         def idleA():
             r = pumpB()
             if not r:
                 clock.now += 1.0
+                idle["n"] += 1
+                if idle["n"] > 300:
+                    idle["n"] = 0
+                    raise Hang()
+            else:
+                idle["n"] = 0
             return r
 
         def idleB():
@@ -228,6 +240,8 @@ def run_case(workload, closes, plan):
                 results.append((label, "EOFError", None))
             except TimeoutError:
                 results.append((label, "timeout", None))
+            except Hang:
+                results.append((label, "hang", None))
             except Exception as e:
                 results.append((label, "exc:" + type(e).__name__, None))
         local_obj = [9]
@@ -323,6 +337,11 @@ def oracle(ctx, case, out):
     for label, kind, ok in out["results"]:
         if kind == "value" and ok is False:
             ctx.violation("request-returned-wrong-value", case, observed=(label, kind), expected="correct value or EOFError", what="a request returned a value the peer did not send")
+        if kind == "hang":
+            ctx.violation("pending-request-hangs", case, observed=(label, kind), expected="value or EOFError", what="a request with no expiry neither completed nor failed: it would hang forever")
+        if kind == "timeout" and label == "async":
+            ctx.violation("no-expiry-request-failed-with-timeout", case, observed=(label, kind), expected="value or EOFError",
+                          what="a pending request that has no expiry failed with the timeout error instead of EOFError")
         if kind.startswith("exc"):
             ctx.violation("request-failed-with:" + kind, case, observed=(label, kind), expected="value, EOFError or timeout", what="a request ended with something other than its value, EOFError or its timeout")
     for nm, v in out["again"].items():
@@ -363,6 +382,35 @@ def run(ctx):
                 oracle(ctx, case, out)
                 for nm in ("A", "B"):
                     mcases.append([facts, out["log"][nm]]); meta.append((case, nm, out["final"][nm]))
+    # threads blocked waiting when the stream ends (the multi-threaded part of "nobody hanging"): the scheduler scenarios of C13
+    try:
+        import random
+        from harness import C13 as T
+        for k in range(25 if ctx.quick else 600):
+            nc = ctx.rng.choice([2, 2, 3]); bg = ctx.rng.random() < 0.5
+            order = list(range(nc)); ctx.rng.shuffle(order)
+            seed, stick, ea = ctx.rng.randrange(10**9), ctx.rng.choice([0.0, 0.2, 0.5]), ctx.rng.randrange(0, nc)
+            rnd = random.Random(seed); last = [None]
+
+            def chooser(en, step):
+                if last[0] in en and rnd.random() < stick:
+                    return last[0]
+                last[0] = rnd.choice(en)
+                return last[0]
+            out = T.scenario(nc, bg, order, chooser, sync_timeout=None, timeouts=[None] * nc, eof_after=ea)
+            case = {"threads": {"clients": nc, "bg": bg, "order": order, "seed": seed, "stick": stick, "eof_after": ea}}
+            ctx.case(("threads-eof", nc, bg, seed, ea), nontrivial=True)
+            ctx.count("threads-blocked-at-end-of-stream")
+            if out["deadlock"]:
+                ctx.violation("waiter-hangs-after-end-of-stream", case, observed=out["deadlock"][:300], expected="EOFError for every blocked request",
+                              what="after the stream ended a thread blocked waiting for its reply stayed blocked forever")
+            for i in range(nc):
+                rr = out["results"].get(i)
+                if rr not in ("p%d" % i, "EXC:EOFError"):
+                    ctx.violation("blocked-request-after-eof-got:" + str(rr)[:40], case, observed=rr, expected="its reply or EOFError",
+                                  what="a request blocked waiting when the stream ended did not fail with EOFError")
+    except ImportError:
+        pass
     ctx.coverage_extra["io_points_enumerated"] = total_points
     ctx.coverage_extra["exhaustive"] = True
     if model and mcases:
@@ -378,6 +426,21 @@ def run(ctx):
 
 def replay(ctx, rep):
     cs = rep["case"]
+    if "threads" in cs:
+        import random
+        from harness import C13 as T
+        t = cs["threads"]; rnd = random.Random(t["seed"]); last = [None]
+
+        def chooser(en, step):
+            if last[0] in en and rnd.random() < t["stick"]:
+                return last[0]
+            last[0] = rnd.choice(en)
+            return last[0]
+        out = T.scenario(t["clients"], t["bg"], t["order"], chooser, sync_timeout=None, timeouts=[None] * t["clients"], eof_after=t["eof_after"])
+        ctx.case(("replay", t["seed"]), True)
+        if out["deadlock"]:
+            ctx.violation("waiter-hangs-after-end-of-stream", cs, observed=out["deadlock"][:300], expected="EOFError", what="a blocked waiter stayed blocked forever after the stream ended")
+        return
     p = Fault(*cs["fault"]) if cs.get("fault") else None
     out = run_case(cs["workload"], cs["closes"], p)
     oracle(ctx, cs, out)
